@@ -11,17 +11,22 @@
   is stricter on symbols: it also demands equal locations), and unstructuring that object again
   gives the same document.
 
-  Full statement `C18_full` is NOT a theorem of the pinned code (`C18_full_false`):
-    * `C18_cex_ties`          the file-IR hook sorts set members on `s["name"]` only: two calls
-                              `g(a)`, `g(b)` keep their set-iteration order (known finding);
-    * `C18_cex_symtab_order`  the context hook emits `symbol_table` in insertion order (known
-                              finding: the insertion order of star-import expansions is hash order);
+  Since a47e117 the file-IR hook sorts the members of each set on the pair
+  `(s["name"], json.dumps(s, sort_keys=True))`: the former tie counterexample is now the positive
+  `C18_ties_resolved`, and `C18_ir_canonical` needs no hypothesis on names — only that the sort
+  key separates the members (`SortKeyInj`: json's printer is injective on them; decidable,
+  evaluated by the driver on every object; the printer itself is not proved injective here).
+
+  Full statement `C18_full` is NOT a theorem (`C18_full_false`):
+    * `C18_cex_symtab_order`  the context hook emits `symbol_table` in insertion order (the
+                              hash-order insertion of star-import expansions was fixed upstream in
+                              b3940ea; the hook's order sensitivity remains a fact);
     * `C18_cex_dup_id`        two keys of one FileIr with the same id collapse (known finding,
                               synthesised objects only).
   Proved for all objects, no size bound: results documents are canonical; IR documents are
-  canonical when names are distinct within each set and among the keys; symbols, function IRs,
-  contexts, whole file IRs, results and cacheable results round-trip; re-serialisation is
-  idempotent. (A fourth known finding, the location a set member carries after result generation,
+  canonical when the dict keys have distinct names and `SortKeyInj` holds of each set; symbols,
+  function IRs, contexts, whole file IRs, results and cacheable results round-trip; re-serialisation is
+  idempotent. (A further known finding, the location a set member carries after result generation,
   arises before serialisation — stage S6 — and has no counterpart in this model, whose input is
   the object to serialise.)
 -/
@@ -61,19 +66,30 @@ theorem tieA_container_fields :
 
 /-- Every `sorted(` of the helpers, in source order: the results hook sorts its four sets and its
 keys naturally; the file-IR hook sorts its keys naturally (`Symbol.__lt__` compares `name`) and
-its four unstructured sets on `s["name"]` — exactly where `sortBy` occurs in the model. -/
+its four unstructured sets on the pair `(s["name"], json.dumps(s, sort_keys=True))` (a47e117) —
+exactly where `sortBy` occurs in the model, with `irKey` as the key. -/
 theorem tieA_sorted_calls :
     Generated.C18.sortedCalls =
       [("serialise_file_results", "values/natural"), ("serialise_file_results", "values/natural"),
        ("serialise_file_results", "values/natural"), ("serialise_file_results", "values/natural"),
        ("serialise_file_results", "keys/natural"),
        ("serialise_file_ir", "keys/natural"),
-       ("serialise_file_ir", "unstructured/item:name"), ("serialise_file_ir", "unstructured/item:name"),
-       ("serialise_file_ir", "unstructured/item:name"), ("serialise_file_ir", "unstructured/item:name"),
+       ("serialise_file_ir", "unstructured/tuple:item:name|call:json.dumps(s;sort_keys=True)"),
+       ("serialise_file_ir", "unstructured/tuple:item:name|call:json.dumps(s;sort_keys=True)"),
+       ("serialise_file_ir", "unstructured/tuple:item:name|call:json.dumps(s;sort_keys=True)"),
+       ("serialise_file_ir", "unstructured/tuple:item:name|call:json.dumps(s;sort_keys=True)"),
        ("serialise_file_ir", "keys/natural")]
     ∧ Generated.C18.symbolLtCompares = "name<name"
     ∧ str "name" = irSortKey
     ∧ Generated.C18.cacheImportsSorted = [("make_cacheable_import_info", "values/attr:filepath")] := by
+  decide
+
+/-- What `json.dumps(·, sort_keys=True)` prints for a probe value (separators `", "`/`": "`, keys
+sorted at every level, ASCII escapes) is what the model's `dumpSorted` computes for it. -/
+theorem tieA_dumps_probe :
+    str Generated.C18.dumpsProbe =
+      dumpSorted (.obj [(str "b", .arr [.num 1, .str (str "x\"y"), .null, .bool true]),
+                        (str "a", .obj [(str "d", .num (-2)), (str "c", .str (str "é"))])]) := by
   decide
 
 /-! ### Sets as lists: the equivalences the statements quantify over -/
@@ -93,15 +109,27 @@ def FileIrSetEq (f₁ f₂ : FileIr) : Prop :=
   unContext f₁.context = unContext f₂.context ∧
   ∃ es, es.Perm f₁.fileIr ∧ Forall2 (fun p q => p.1 = q.1 ∧ FnIrSetEq p.2 q.2) es f₂.fileIr
 
-/-- The sort key `name` is injective on the members of the set. -/
+/-- The key the file-IR hook sorts an unstructured member on. -/
+def symKey (s : Symbol) : Str × Str := irKey (unSymbol s)
+
+/-- The sort key separates distinct members: two members with the same
+`(name, json.dumps(·, sort_keys=True))` have the same document. This is the injectivity of json's
+printer on the members (json is trusted, DESIGN §6); it is a decidable condition on the concrete
+set, evaluated by the driver on every object of every run. -/
+def SortKeyInj (l : List Symbol) : Prop :=
+  ∀ a b, a ∈ l → b ∈ l → symKey a = symKey b → unSymbol a = unSymbol b
+
+/-- The stronger condition the pre-a47e117 hook needed: `name` alone separates the members. -/
 def NamesDistinct (l : List Symbol) : Prop := ∀ a b, a ∈ l → b ∈ l → a.nm = b.nm → a = b
 
-def FnIrNamesDistinct (ir : FunctionIr) : Prop :=
-  NamesDistinct ir.gets ∧ NamesDistinct ir.sets ∧ NamesDistinct ir.dels ∧ NamesDistinct ir.calls
+def FnIrSortKeyInj (ir : FunctionIr) : Prop :=
+  SortKeyInj ir.gets ∧ SortKeyInj ir.sets ∧ SortKeyInj ir.dels ∧ SortKeyInj ir.calls
 
-def FileIrNamesDistinct (f : FileIr) : Prop :=
+/-- Keys of the `_file_ir` dict have pairwise different names (they come from a context lookup by
+id), and the sort key separates the members of every set. -/
+def FileIrSortKeyInj (f : FileIr) : Prop :=
   (∀ p q, p ∈ f.fileIr → q ∈ f.fileIr → p.1.nm = q.1.nm → p = q) ∧
-  ∀ p, p ∈ f.fileIr → FnIrNamesDistinct p.2
+  ∀ p, p ∈ f.fileIr → FnIrSortKeyInj p.2
 
 /-! ### Canonical form: results (full) -/
 
@@ -138,33 +166,63 @@ theorem jName_unSymbol (s : Symbol) : jName (unSymbol s) = s.nm := by
   | call n a t l => rfl
 
 theorem unSymbolSet_eq (l : List Symbol) :
-    unSymbolSet l = .arr ((sortBy strLe Symbol.nm l).map unSymbol) := by
+    unSymbolSet l = .arr ((sortBy pairLe symKey l).map unSymbol) := by
   unfold unSymbolSet
-  rw [sortBy_map, sortBy_congr strLe jName_unSymbol]
+  rw [sortBy_map]
+  rfl
 
-theorem unSymbolSet_perm {a b : List Symbol} (h : a.Perm b) (hd : NamesDistinct a) :
+theorem sortKeyInj_of_namesDistinct {l : List Symbol} (h : NamesDistinct l) : SortKeyInj l := by
+  intro a b ha hb hk
+  have hn : a.nm = b.nm := by
+    have := congrArg Prod.fst hk
+    simpa [symKey, irKey, jName_unSymbol] using this
+  rw [h a b ha hb hn]
+
+/-- The driver's Boolean check is the hypothesis of the theorems. -/
+theorem sortKeyInjB_iff (l : List Symbol) : sortKeyInjB l = true ↔ SortKeyInj l := by
+  unfold sortKeyInjB SortKeyInj symKey
+  simp only [List.all_eq_true, Bool.or_eq_true, Bool.not_eq_true', decide_eq_false_iff_not, decide_eq_true_eq]
+  constructor
+  · intro h a b ha hb hk
+    rcases h a ha b hb with h' | h'
+    · exact absurd hk h'
+    · exact h'
+  · intro h a ha b hb
+    by_cases hk : irKey (unSymbol a) = irKey (unSymbol b)
+    · exact Or.inr (h a b ha hb hk)
+    · exact Or.inl hk
+
+theorem unSymbolSet_perm {a b : List Symbol} (h : a.Perm b) (hd : SortKeyInj a) :
     unSymbolSet a = unSymbolSet b := by
-  rw [unSymbolSet_eq, unSymbolSet_eq, sortBy_perm_eq strLe Symbol.nm strLe_order h hd]
+  unfold unSymbolSet
+  congr 1
+  apply sortBy_perm_eq pairLe irKey pairLe_order (h.map unSymbol)
+  intro x y hx hy hxy
+  obtain ⟨a', ha', rfl⟩ := List.mem_map.mp hx
+  obtain ⟨b', hb', rfl⟩ := List.mem_map.mp hy
+  exact hd a' b' ha' hb' hxy
 
-theorem unFnIr_setEq {a b : FunctionIr} (h : FnIrSetEq a b) (hd : FnIrNamesDistinct a) :
+theorem unFnIr_setEq {a b : FunctionIr} (h : FnIrSetEq a b) (hd : FnIrSortKeyInj a) :
     unFnIr a = unFnIr b := by
   unfold unFnIr
   rw [unSymbolSet_perm h.1 hd.1, unSymbolSet_perm h.2.1 hd.2.1, unSymbolSet_perm h.2.2.1 hd.2.2.1,
     unSymbolSet_perm h.2.2.2 hd.2.2.2]
 
-/-- C18 (canonical, IR), partial: with names distinct within every set and among the keys, the
-file-IR document does not depend on any iteration order. -/
-theorem C18_ir_canonical_partial (f₁ f₂ : FileIr) (hd : FileIrNamesDistinct f₁)
+/-- C18 (canonical, IR): the file-IR document does not depend on any iteration order — of the
+`_file_ir` dict or of any of the sets, *with or without members sharing a name* — as long as the
+dict keys have distinct names and the sort key `(name, json.dumps(member))` separates the members
+of each set (`FileIrSortKeyInj`: json's printer is injective on them). -/
+theorem C18_ir_canonical (f₁ f₂ : FileIr) (hd : FileIrSortKeyInj f₁)
     (h : FileIrSetEq f₁ f₂) : unFileIr f₁ = unFileIr f₂ := by
   obtain ⟨hc, es, hp, hf⟩ := h
   unfold unFileIr sortedEntries
   have e1 : sortBy strLe (fun p : Symbol × FunctionIr => p.1.nm) f₁.fileIr
       = sortBy strLe (fun p => p.1.nm) es :=
     sortBy_perm_eq strLe _ strLe_order hp.symm hd.1
-  have hf' := forall₂_and_left (P := fun p : Symbol × FunctionIr => FnIrNamesDistinct p.2) hf
+  have hf' := forall₂_and_left (P := fun p : Symbol × FunctionIr => FnIrSortKeyInj p.2) hf
     (fun a ha => hd.2 a (hp.mem_iff.mp ha))
   have hs := sortBy_forall₂ strLe (fun p : Symbol × FunctionIr => p.1.nm) (fun p => p.1.nm) _
-    (fun (a c : Symbol × FunctionIr) (hac : (a.1 = c.1 ∧ FnIrSetEq a.2 c.2) ∧ FnIrNamesDistinct a.2) => by
+    (fun (a c : Symbol × FunctionIr) (hac : (a.1 = c.1 ∧ FnIrSetEq a.2 c.2) ∧ FnIrSortKeyInj a.2) => by
       rw [hac.1.1]) hf'
   rw [hc, e1]
   simp only
@@ -177,29 +235,45 @@ theorem C18_ir_canonical_partial (f₁ f₂ : FileIr) (hd : FileIrNamesDistinct 
   rw [m1, m2]
 
 /-- C18 (canonical, `-o ir` document): the same, for the whole `OutputIrs`. -/
-theorem C18_outputirs_canonical_partial (o₁ o₂ : OutputIrs)
+theorem C18_outputirs_canonical (o₁ o₂ : OutputIrs)
     (hn : o₁.targetName = o₂.targetName)
-    (ht : FileIrSetEq o₁.targetIr o₂.targetIr) (htd : FileIrNamesDistinct o₁.targetIr)
-    (hi : Forall2 (fun p q => p.1 = q.1 ∧ FileIrSetEq p.2 q.2 ∧ FileIrNamesDistinct p.2)
+    (ht : FileIrSetEq o₁.targetIr o₂.targetIr) (htd : FileIrSortKeyInj o₁.targetIr)
+    (hi : Forall2 (fun p q => p.1 = q.1 ∧ FileIrSetEq p.2 q.2 ∧ FileIrSortKeyInj p.2)
       o₁.importIrs o₂.importIrs) :
     unOutputIrs o₁ = unOutputIrs o₂ := by
   unfold unOutputIrs
-  rw [hn, C18_ir_canonical_partial _ _ htd ht]
+  rw [hn, C18_ir_canonical _ _ htd ht]
   have := map_eq_of_forall₂ (f := fun p : Str × FileIr => (p.1, unFileIr p.2))
     (g := fun p : Str × FileIr => (p.1, unFileIr p.2))
-    (fun a c hac => by rw [hac.1, C18_ir_canonical_partial _ _ hac.2.2 hac.2.1]) hi
+    (fun a c hac => by rw [hac.1, C18_ir_canonical _ _ hac.2.2 hac.2.1]) hi
   simp only at this ⊢
   rw [this]
 
 private def loc0 : Location := { lineno := 1, colOffset := 0, endLineno := none, endColOffset := none, file := str "t.py" }
 private def callG (arg : String) : Symbol := .call (str "g") { args := [str arg], kwargs := [] } none loc0
 
-/-- Two calls `g(a)`, `g(b)` in one set: the sort key `name` ties, the stable sort keeps the
-iteration order, and the two iteration orders give two documents. -/
-theorem C18_cex_ties :
-    [callG "a", callG "b"].Perm [callG "b", callG "a"]
-    ∧ unSymbolSet [callG "a", callG "b"] ≠ unSymbolSet [callG "b", callG "a"] :=
-  ⟨List.Perm.swap _ _ _, by decide⟩
+/-- (test, by evaluation) Two calls `g(a)`, `g(b)` in one set — the witness of the former tie
+defect: the two iteration orders now give ONE document, `g(a)` first. -/
+theorem C18_ties_resolved :
+    unSymbolSet [callG "a", callG "b"] = unSymbolSet [callG "b", callG "a"]
+    ∧ unSymbolSet [callG "b", callG "a"] = .arr [unSymbol (callG "a"), unSymbol (callG "b")] := by
+  decide
+
+/-- The new hypothesis is strictly weaker than the old one: it holds of the tie witness, which
+`NamesDistinct` excludes. -/
+theorem C18_ties_sortKeyInj :
+    SortKeyInj [callG "a", callG "b"] ∧ ¬ NamesDistinct [callG "a", callG "b"] := by
+  constructor
+  · intro a b ha hb
+    simp only [List.mem_cons, List.not_mem_nil, or_false] at ha hb
+    have hne : symKey (callG "a") ≠ symKey (callG "b") := by decide +kernel
+    rcases ha with rfl | rfl <;> rcases hb with rfl | rfl
+    · intro _; rfl
+    · intro hk; exact absurd hk hne
+    · intro hk; exact absurd hk.symm hne
+    · intro _; rfl
+  · intro h
+    exact absurd (h (callG "a") (callG "b") (by simp) (by simp) (by decide)) (by decide)
 
 private def symF : Symbol := .base (.func (str "f") loc0 (.mk ⟨[], [str "x"], none, [], none⟩) false)
 private def symG : Symbol := .base (.func (str "g") loc0 .any false)
@@ -366,12 +440,12 @@ theorem Symbol.pyEq_comm (a b : Symbol) : a.pyEq b = b.pyEq a := by
 
 def IsSet (l : List Symbol) : Prop := l.Pairwise (fun a b => Symbol.pyEq a b = false)
 
-theorem isSet_sortBy {l : List Symbol} (h : IsSet l) : IsSet (sortBy strLe Symbol.nm l) :=
-  ((perm_sortBy strLe Symbol.nm l).pairwise_iff
+theorem isSet_sortBy {l : List Symbol} (h : IsSet l) : IsSet (sortBy pairLe symKey l) :=
+  ((perm_sortBy pairLe symKey l).pairwise_iff
     (fun {x y} (hxy : Symbol.pyEq x y = false) => by rw [Symbol.pyEq_comm]; exact hxy)).mpr h
 
 theorem rt_symbolSet (l : List Symbol) (h : IsSet l) :
-    stSymbolSet (unSymbolSet l) = .ok (sortBy strLe Symbol.nm l) := by
+    stSymbolSet (unSymbolSet l) = .ok (sortBy pairLe symKey l) := by
   rw [unSymbolSet_eq]
   simp only [stSymbolSet, mapM'_map unSymbol stSymbol rt_symbol]
   rw [dedupBy_of_pairwise _ _ (isSet_sortBy h)]
@@ -385,8 +459,8 @@ theorem C18_roundtrip_symbol (s : Symbol) : stSymbol (unSymbol s) = .ok s := rt_
 theorem C18_any_not_empty : unIface .any ≠ unIface (.mk ⟨[], [], none, [], none⟩) := by decide
 
 def normIr (ir : FunctionIr) : FunctionIr :=
-  { gets := sortBy strLe Symbol.nm ir.gets, sets := sortBy strLe Symbol.nm ir.sets,
-    dels := sortBy strLe Symbol.nm ir.dels, calls := sortBy strLe Symbol.nm ir.calls }
+  { gets := sortBy pairLe symKey ir.gets, sets := sortBy pairLe symKey ir.sets,
+    dels := sortBy pairLe symKey ir.dels, calls := sortBy pairLe symKey ir.calls }
 
 def FnIrIsSet (ir : FunctionIr) : Prop := IsSet ir.gets ∧ IsSet ir.sets ∧ IsSet ir.dels ∧ IsSet ir.calls
 
@@ -482,9 +556,8 @@ theorem C18_reserialise_idem_symbol (s s' : Symbol) (hst : stSymbol (unSymbol s)
   cases hst
   rfl
 
-/-- Re-serialisation is idempotent for a function IR whose names are distinct within each set
-(with equal names it is not: the rebuilt sets may iterate in another order, `C18_cex_ties`). -/
-theorem C18_reserialise_idem_fnir (ir ir' : FunctionIr) (h : FnIrIsSet ir) (hd : FnIrNamesDistinct ir)
+/-- Re-serialisation is idempotent for a function IR (members sharing a name included). -/
+theorem C18_reserialise_idem_fnir (ir ir' : FunctionIr) (h : FnIrIsSet ir) (hd : FnIrSortKeyInj ir)
     (hst : stFnIr (unFnIr ir) = .ok ir') : unFnIr ir' = unFnIr ir := by
   rw [(C18_roundtrip_fnir ir h).1] at hst
   cases hst
@@ -678,14 +751,13 @@ theorem normFileIr_setEq (f : FileIr) : FileIrSetEq f (normFileIr f) :=
     forall₂_map_right _ (fun _ => ⟨rfl, (perm_sortBy _ _ _).symm, (perm_sortBy _ _ _).symm,
       (perm_sortBy _ _ _).symm, (perm_sortBy _ _ _).symm⟩) _⟩
 
-/-- Re-serialisation is idempotent for a well-formed FileIr whose names are distinct within each
-set: `serialise(deserialise(serialise(f))) = serialise(f)`. -/
+/-- Re-serialisation is idempotent for a well-formed FileIr: `serialise(deserialise(serialise(f))) = serialise(f)`. -/
 
-theorem C18_reserialise_idem_ir (f f' : FileIr) (hw : FileIrWf f) (hd : FileIrNamesDistinct f)
+theorem C18_reserialise_idem_ir (f f' : FileIr) (hw : FileIrWf f) (hd : FileIrSortKeyInj f)
     (hst : stFileIr f.context.depth (unFileIr f) = .ok f') : unFileIr f' = unFileIr f := by
   rw [C18_roundtrip_ir f hw] at hst
   cases hst
-  exact (C18_ir_canonical_partial f (normFileIr f) hd (normFileIr_setEq f)).symm
+  exact (C18_ir_canonical f (normFileIr f) hd (normFileIr_setEq f)).symm
 
 private def wfIr : FileIr :=
   { context := .mk (some (.mk none [] (str "pkg/__init__.py"))) [(str "f", .base (.func (str "f") ⟨1, 0, some 2, some 9, str "t.py"⟩ .any false))] (str "t.py"),
@@ -715,8 +787,8 @@ def KeysDistinct (f : FileIr) : Prop :=
   ∀ p q, p ∈ f.fileIr → q ∈ f.fileIr → p.1.nm = q.1.nm → p = q
 
 /-- C18 in full: every document is canonical (results, file IR — for *all* sets, with or without
-equal names — and the emitted symbol table, whose dict is a mapping), and everything
-round-trips. -/
+equal names and with no assumption on json's printer — and the emitted symbol table, whose dict is
+a mapping), and everything round-trips. -/
 def C18_full : Prop :=
   (∀ r₁ r₂ : FileResults, (r₁.map Prod.fst).Nodup → ResultsSetEq r₁ r₂ →
       unFileResults r₁ = unFileResults r₂)
@@ -730,19 +802,19 @@ def C18_full : Prop :=
 private def tieIr (cs : List Symbol) : FileIr :=
   { context := .mk none [] (str "t.py"), fileIr := [(symF, ⟨[], [], [], cs⟩)] }
 
-theorem C18_cex_ties_fileir :
-    FileIrSetEq (tieIr [callG "a", callG "b"]) (tieIr [callG "b", callG "a"])
-    ∧ unFileIr (tieIr [callG "a", callG "b"]) ≠ unFileIr (tieIr [callG "b", callG "a"]) := by
-  refine ⟨⟨rfl, [(symF, ⟨[], [], [], [callG "a", callG "b"]⟩)], List.Perm.refl _, ?_⟩, by decide⟩
-  exact .cons ⟨rfl, List.Perm.refl _, List.Perm.refl _, List.Perm.refl _, List.Perm.swap _ _ _⟩ .nil
+/-- (test, by evaluation) the former FileIr-level tie witness: one document for both orders. -/
+theorem C18_ties_resolved_fileir :
+    unFileIr (tieIr [callG "a", callG "b"]) = unFileIr (tieIr [callG "b", callG "a"]) := by decide
 
+/-- `C18_full` still fails: its third conjunct asks the emitted symbol table to be a function of
+the mapping, and the context hook emits the dict in insertion order (`C18_cex_symtab_order`).
+(Since b3940ea the analyser hands the serialiser a deterministic insertion order, so this is no
+longer observable as a hash-seed dependence; it remains a fact about the hook.) -/
 theorem C18_full_false : ¬ C18_full := by
   intro h
-  have hk : KeysDistinct (tieIr [callG "a", callG "b"]) := by
-    intro p q hp hq _
-    simp only [tieIr, List.mem_singleton] at hp hq
-    rw [hp, hq]
-  exact C18_cex_ties_fileir.2 (h.2.1 _ _ hk C18_cex_ties_fileir.1)
+  exact C18_cex_symtab_order.2
+    (h.2.2.1 none [(str "f", symF), (str "g", symG)] [(str "g", symG), (str "f", symF)] (str "t.py")
+      (List.Perm.swap _ _ _))
 
 /-! ### Non-vacuity: the hypotheses are satisfiable by non-trivial inputs -/
 
@@ -760,14 +832,16 @@ example : (resA.map Prod.fst).Nodup ∧ ResultsSetEq resA resB ∧ unFileResults
   exact .cons ⟨rfl, List.Perm.refl _, List.Perm.refl _, List.Perm.refl _, List.Perm.refl _⟩
     (.cons ⟨rfl, List.Perm.swap _ _ _, List.Perm.refl _, List.Perm.refl _, List.Perm.swap _ _ _⟩ .nil)
 
-/-- `NamesDistinct` holds of a set with three different names (and fails for the tie witness). -/
-example : NamesDistinct [nm "a", nm "a.b", callG "a"] ∧ ¬ NamesDistinct [callG "a", callG "b"] := by
+/-- `FileIrSortKeyInj` holds of a FileIr whose `calls` set has two members of one name. -/
+example : FileIrSortKeyInj (tieIr [callG "a", callG "b"]) := by
   constructor
-  · intro a b ha hb
-    simp only [List.mem_cons, List.not_mem_nil, or_false] at ha hb
-    rcases ha with rfl | rfl | rfl <;> rcases hb with rfl | rfl | rfl <;> decide
-  · intro h
-    exact absurd (h (callG "a") (callG "b") (by simp) (by simp) (by decide)) (by decide)
+  · intro p q hp hq _
+    simp only [tieIr, List.mem_singleton] at hp hq
+    rw [hp, hq]
+  · intro p hp
+    simp only [tieIr, List.mem_singleton] at hp
+    subst hp
+    refine ⟨?_, ?_, ?_, C18_ties_sortKeyInj.1⟩ <;> (intro a b ha; cases ha)
 
 /-- `FnIrIsSet`/`FnNodup` are satisfiable, and the round trip of a `Call` with a nested `Func`
 target evaluates as the theorem says. -/
